@@ -62,9 +62,7 @@ pub fn bytes_prefix(b: &Bytes, n: usize) -> (o: &[u8])
     requires n <= b@.len()
     ensures o@ == b@.subrange(0, n as int)
 { unimplemented!() }
-//@include shims/std_gaps.rs
-pub assume_specification<T, U, F: FnOnce(T) -> U> [Option::<T>::map_or] (o: Option<T>, d: U, f: F) -> (r: U)
-    ensures match o { Some(v) => call_ensures(f, (v,), r), None => r == d };
+//@include shims/std_wide.rs
 
 //@item iroh-relay/src/protos/relay.rs const MAX_PACKET_SIZE
 //@item iroh-relay/src/protos/relay.rs struct Datagrams
